@@ -77,7 +77,15 @@ OpSetLevel(n)  == Step("set_level", <<n>>, TRUE, n, silent)
 OpSetSilent(b) == Step("set_silent", <<b>>, b, r, b)                      \* libast_set_silent returns the new value
 \* History of the debug stream: "clean", or one earlier write on it failed (full non-blocking pipe, EAGAIN) and the stream
 \* works again.  S: the gates are the two levels and the silent flag - nothing else; so the outcome is the same.
-Histories == {"clean", "after_failed_write"}
+\* "in_atexit_of_fatal": the statement is executed by an atexit handler of the client while the exit() of an earlier fatal error
+\* is running the handlers.  S: a failed ASSERT is fatal, libast_fatal_error ends the process - "never by carrying on".
+Histories == {"clean", "after_failed_write", "in_atexit_of_fatal"}
+\* Type of the asserted / required expression.  S: ASSERT(x) / REQUIRE(x) test the TRUTH of x exactly as C's !(x) does, whatever
+\* its scalar type: a double of magnitude below 1, a 64-bit value whose low 32 bits are 0, a pointer, a bit-field, a _Bool.
+\* The outcome is that of the same statement with an int condition of the same truth value.
+CondTypes == {"int", "double", "float", "longdouble", "negdouble", "longlong", "pointer", "bool", "bitfield", "uchar"}
+Typed == {"ASSERT_hold", "ASSERT_fail", "ASSERT_RVAL_hold", "ASSERT_RVAL_fail",
+          "REQUIRE_hold", "REQUIRE_fail", "REQUIRE_RVAL_hold", "REQUIRE_RVAL_fail"}
 \* Statement context: every macro of the family is a STATEMENT and must behave as one wherever a statement may stand.
 \*   alone / braced           - the plain outcome
 \*   then_true / then_false   - the unbraced then-arm of  "if (c) M; else E;" : with c true M behaves as alone and E is not
@@ -90,14 +98,15 @@ InContext(o, c) ==
     ELSE [out |-> o.out, eval |-> IF c = "loop2" /\ o.ctl = "falls" THEN 2 * o.eval ELSE o.eval, ctl |-> o.ctl, els |-> FALSE]
 \* The length of the message is NOT a parameter of the rule: a live statement prints its message complete, whatever its length
 \* (checks/c20.py sweeps message lengths around 8..8192, BUFSIZ and beyond against these same outcomes).
-OpExecute(m, h, c) ==
+OpExecute(m, h, c, ty) ==
     /\ (c = "alone" \/ (h = "clean" /\ m \notin Printers))
-    /\ \E o \in Outcomes(d, r, silent, m) : Step("execute", <<m, h, c>>, InContext(o, c), r, silent)
+    /\ (ty = "int" \/ (m \in Typed /\ c = "alone" /\ h = "clean"))
+    /\ \E o \in Outcomes(d, r, silent, m) : Step("execute", <<m, h, c, ty>>, InContext(o, c), r, silent)
 
 Init == d \in CompileLevels /\ r = 0 /\ silent = FALSE                    \* a program starts at level 0, not silenced
 Next == \/ \E n \in RunLevels : OpSetLevel(n)
         \/ \E b \in BOOLEAN : OpSetSilent(b)
-        \/ \E m \in Macros, h \in Histories, c \in Contexts : OpExecute(m, h, c)
+        \/ \E m \in Macros, h \in Histories, c \in Contexts, ty \in CondTypes : OpExecute(m, h, c, ty)
 Spec == Init /\ [][Next]_vars
 
 -------------------------------------------------------------------------------
